@@ -54,7 +54,11 @@ class C06Conservation(Checker):
         if root is None:
             return
         seen = 0
-        for n in root.walk():
+        focus = w.node(op['p']) if 'p' in op else None
+        order = list(focus.walk())[:30] if focus is not None else []
+        # the element operated on (and what hangs below it) first, then the rest of the document, 60 nodes at most
+        order += [n for n in root.walk() if not any(n is x for x in order)]
+        for n in order:
             seen += 1
             if seen > 60:
                 break
